@@ -64,7 +64,7 @@ def generate(rng, i, tier):
         else:
             m = gen.gen_member(rng, ["id"] + [str(c) for c in range(1, ncol)], len(files[fi]["rows"]), None, max_comps=4, zoo_p=0.6, zoo_pool=gen.ZOO_SAFE)
         progs.append(m)
-        kind = rng.choice(["direct", "via", "via", "named"])
+        kind = rng.choice(["direct", "via", "via", "named", "via_shared", "via_shared"])
         jobs.append(
             {
                 "kind": kind,
@@ -122,6 +122,9 @@ def reductions(sc):
 # --------------------------------------------------------------------------
 
 
+SHARED = {}  # per process: (delimiter, quotechar) -> CsvPaths
+
+
 def run_job(job, jn, dialects):
     """Runs one job in the current process and world; returns its result tuple."""
     from csvpath.util.printer import TestPrinter
@@ -133,8 +136,14 @@ def run_job(job, jn, dialects):
     delim, quote = dialects[job["file"]]
     try:
         with ops.quiet():
-            if job["kind"] in ("direct", "via"):
-                if job["kind"] == "direct":
+            if job["kind"] in ("direct", "via", "via_shared"):
+                if job["kind"] == "via_shared":
+                    # one long-lived CsvPaths serves several jobs (its FileCacher keeps line monitors and headers in memory)
+                    key = (delim, quote)
+                    if key not in SHARED:
+                        SHARED[key] = CsvPaths(delimiter=delim, quotechar=quote)
+                    cp = SHARED[key].csvpath()
+                elif job["kind"] == "direct":
                     cfg = None
                     if job.get("policy"):
                         cfg = Config()
@@ -279,6 +288,7 @@ def execute(sc):
         out.probe("job over a file already used in this process", False)
         out.probe("header cell starting with a quote", "leading_quote" in classes)
         out.probe("header cell with a newline", "newline" in classes)
+        out.probe("two jobs through one shared CsvPaths over the same file", any(a["kind"] == b["kind"] == "via_shared" and a["file"] == b["file"] for x, a in enumerate(jobs) for b in jobs[x + 1 :]))
         out.probe("exact repeat of a job", any(jobs[a] == jobs[b] for a in range(len(jobs)) for b in range(a + 1, len(jobs))))
         out.extra["header_classes"] = classes
         out.log(hist, len(out.violations))
